@@ -8,7 +8,7 @@ open ChibiVerif.Init
 
 /-- `[a]` / `[a ... b]` in `designation` -/
 theorem sim_desg_bracket {f : Nat} (ih : Sim f) {root : Ty} {top : Bool} {obj : Init} {p : List Nat} {elem : Ty} {len : Nat}
-    {cs : List Init} {toks : List ITok} {c' : Init} {toks' : List ITok} (hA : At root obj p (.array elem len) (.arr cs))
+    {cs : List Init} {toks : List ITok} {c' : Init} {toks' : List ITok} (hA : At root top obj p (.array elem len) (.arr cs))
     (h : (arrayDesignator cs.length toks >>= fun x =>
         (List.range' x.1 (x.2.1 + 1 - x.1)).foldlM (fun (acc : Init × List ITok) i =>
             getChild acc.1.children i >>= fun c => designation f elem x.2.2 c >>= fun y =>
@@ -56,7 +56,7 @@ theorem sim_desg_bracket {f : Nat} (ih : Sim f) {root : Ty} {top : Bool} {obj : 
       have e3 : setAtM (setAtM obj (p ++ [a.toNat]) ca') p c' = setAtM obj p c' := by rw [e1, setAtM_over hA]
       rw [e3] at h2
       exact h1'.trans h2
-    have hg := growable_false (top := top) hA.rootOk hA.sub
+    have hg := growable_false (top := top) hA
     rcases arrayDesignator_ok had with ⟨a, rfl, h0, h1, hb, he⟩ | ⟨a, a2, rfl, h0, h1, h2, hb, he⟩
     · rw [hlen] at h1
       rw [desigPaths_idx_arr _ _ hA.sub hg h0 h1]
@@ -311,7 +311,7 @@ theorem sim_init2 {f : Nat} (ih : Sim f) : Init2St (f+1) := by
         refine ⟨hs', init2_stop hA (by simp) (by simp [stopsAt, strFits, hint, hsz]) (fun hne => ?_)⟩
         have hz := hne rfl (by intro sz k hh; cases hh)
         obtain ⟨_, _, hsv, _⟩ := stringInitializer_spec hA.shapedc hz hint h
-        simp only [storeTok, growable_false hA.rootOk hA.sub, Bool.false_eq_true, ↓reduceIte]
+        simp only [storeTok, growable_false hA, Bool.false_eq_true, ↓reduceIte]
         exact hsv
       · rename_i hint
         refine ih.arr20 hA (fun tok r' heq => ?_) h
@@ -416,10 +416,10 @@ theorem sim_init2 {f : Nat} (ih : Sim f) : Init2St (f+1) := by
       cases h
       simp only at hrb
       have hend := strip_comma_rbrace hrb
-      have hAr : At (.scalar sz k) (.leaf e) [] (.scalar sz k) (.leaf e) := At.root hA.ok hA.shapedc
-      obtain ⟨hs', _⟩ := ih.init2 (top := false) hAr hinit
+      have hAr : ∀ top, At (.scalar sz k) top (.leaf e) [] (.scalar sz k) (.leaf e) := fun _ => At.root hA.ok hA.shapedc
+      obtain ⟨hs', _⟩ := ih.init2 (top := false) (hAr false) hinit
       refine ⟨hs', init2_brace hA (fun hne top g fl res hres hcl => ?_)⟩
-      obtain ⟨_, himp⟩ := ih.init2 (top := top) hAr hinit
+      obtain ⟨_, himp⟩ := ih.init2 (top := top) (hAr top) hinit
       have fin : ∀ g1 cur first, initList g1 (.scalar sz k) top c1 cur tok first fl = .ok res →
           defaultMember (.scalar sz k) (unflex res.obj) = c1 ∧ res.rest = toks' ∧ res.fl = fl := by
         intro g1 cur first hh
@@ -439,7 +439,7 @@ theorem sim_init2 {f : Nat} (ih : Sim f) : Init2St (f+1) := by
           subst e1 e2
           exact fin (g+1) _ _ hres
         | none =>
-          rw [initList_item _ _ _ _ _ _ _ _ hce] at hres
+          replace hres := initList_item_imp _ _ _ _ _ _ _ _ hce hres hcl
           simp only [↓reduceIte, pure_bind'] at hres
           by_cases hdg : isDesg inner = true
           · exfalso
